@@ -2991,3 +2991,50 @@ func c02R7(c *Ctx, r *Report) {
 			"a non-finite float is printed as inf.0 / nan.0, which is not the text of a number (the wasm target prints Infinity / NaN)")
 	}
 }
+
+// ---- C05.R8: a method's HIR type comes from its own signature -----------------------------------------------
+
+func init() {
+	lateInits = append(lateInits, func() {
+		props["C05"].Quick = append(props["C05"].Quick, c05R8)
+		props["C05"].Explanation += " (R8) HIR generation types a method declaration from its own signature node, not from a symbol found by the method's name (methods are not in the scope chain; a free function may share the name)."
+	})
+}
+
+func c05R8(c *Ctx, r *Report) {
+	const rule = "C05.R8"
+	r.Describe(rule, "hir/gen lowerMethodDecl: the Type of the hir.MethodDecl is not resolved through a look-up of decl.Name (resolveFuncType is called with a nil name, or another route that only reads decl.Type)")
+	fn := c.LookupFn("internal/hir/gen", "(*Generator).lowerMethodDecl")
+	rft := c.LookupFn("internal/hir/gen", "(*Generator).resolveFuncType")
+	if !r.Anchor(rule, fn != nil, "hir/gen lowerMethodDecl") {
+		return
+	}
+	info := fn.Info()
+	n := 0
+	ast.Inspect(fn.Decl.Body, func(x ast.Node) bool {
+		cl, ok := x.(*ast.CompositeLit)
+		if !ok {
+			return true
+		}
+		if nt := namedOf(info.TypeOf(cl)); nt == nil || nt.Obj().Name() != "MethodDecl" {
+			return true
+		}
+		for _, e := range cl.Elts {
+			kv, ok := e.(*ast.KeyValueExpr)
+			if !ok || exprStr(kv.Key) != "Type" {
+				continue
+			}
+			n++
+			byName := false
+			if call, ok := ast.Unparen(kv.Value).(*ast.CallExpr); ok && rft != nil && isCallTo(info, call, rft.Obj) && len(call.Args) >= 1 {
+				if tv, ok := info.Types[call.Args[0]]; !ok || !tv.IsNil() {
+					byName = true
+				}
+			}
+			r.Check(!byName, rule, fn.Name(), "the method's type is taken from its signature, not from a name look-up", c.pos(kv.Pos()),
+				"the method's name is looked up in the scope chain: a free function of the same name lends the method its type, so `fn get() { }` + `fn (c: &Counter) get() -> i32 { }` passes the return analysis with an empty body and c.get() returns garbage")
+		}
+		return true
+	})
+	r.Floor(rule, n, 1, "hir.MethodDecl constructions")
+}
